@@ -274,9 +274,8 @@ func (c *Ctx) watchdog() {
 			charged = 0
 		}
 		lastSeq, lastCPU = seq, now
-		if c.callSoft.Load() && charged > c.budgetCur.Load()/3 && c.active.Load() && c.callSeq.Load() == seq {
-			// calls that may legitimately be slow get a third of the budget: every correct call of these workloads
-			// takes milliseconds, and an abandoned call is not a verdict
+		if c.callSoft.Load() && charged > c.budgetCur.Load() && c.active.Load() && c.callSeq.Load() == seq {
+			// a call that may legitimately be slow is abandoned at the budget and counted; that is not a verdict
 			c.write(Rec{T: "slow", Unit: c.curUnit, Key: c.curKey(), CPU: float64(charged) / 1e9})
 			c.flush()
 			os.Exit(ExitSlow)
